@@ -363,7 +363,11 @@ def replay(path):
         m = c["mutant"]
         exc = api_case(scripts.std_cfgs()[c["cfg"]], c["op"], lambda req: patch_ids(m["b"], req))
         print(exc)
-        bad = exc in ("PanicException",)
+        name, bases, isexc = tuple(exc[:3]) if isinstance(exc, tuple) else (exc, [], exc != "PanicException")
+        documented = {"SnmpError", "SnmpDecodeError", "SnmpEncodeError", "SnmpAuthError", "NoSuchInstance", "TimeoutError", "BlockingIOError",
+                      "OSError", "ValueError", "StopIteration", "StopAsyncIteration", "ConnectionRefusedError"}
+        bad = bool(name) and not (isexc and (name in documented or set(bases) & {"SnmpError", "OSError", "ValueError"}
+                                              or (c["op"].endswith("get_many") and name == "RuntimeError")))
     else:
         bad = True
     if not bad:
